@@ -132,7 +132,8 @@ K("C03", "K03-inter4-count", "c03_intersection4_count_dense", timeout=1200, mem=
   title="4-way Intersection::count_including_deleted (dense block path, two `others`) = |A∩B∩C∩D|: every clause filters",
   functions=["Intersection::{new,count_including_deleted,count_including_deleted_dense}", "and_blocks_and_return_is_empty", "DocSet::fill_bitset_block (default)"],
   bounds="4 leaves x 2 docs, ids < 32, 32-document segment (dense path)", assumes=[ARR])
-K("C03", "K03-inter-count", "c03_intersection_count", tiers="t", timeout=900, unwindset=GO_FIRST + [("and_blocks_and_return_is_empty", 18)],
+K("C03", "K03-inter-count", "c03_intersection_count", tiers="t", timeout=900,
+  unwindset=GO_FIRST + [("and_blocks_and_return_is_empty", 18), (r"count_including_deleted_denseB9_\.0$", 3), (r"count_including_deleted_denseB9_\.1$", 18), (r"count_including_deleted_denseB9_\.2$", 6)],
   title="Intersection::count_including_deleted (sparse and dense block paths) = |A∩B|",
   functions=["Intersection::count_including_deleted{,_sparse,_dense}", "DocSet::fill_bitset_block (default)"],
   bounds="2 leaves x <=3 docs, ids < 4000, segment size 1..4000", assumes=[ARR])
